@@ -472,10 +472,16 @@ fn run_file(real: &mut Real, initial: u32, append: bool, direct: bool, ops: &[Fi
             let first = ca.iter().zip(&cb).position(|(x, y)| x != y).unwrap_or(ca.len().min(cb.len()));
             return Err(format!("file-content:{what}: the twin files differ after the operation (sizes {} vs {}, first difference at byte {first})", ca.len(), cb.len()));
         }
-        let (ma, mb) = (std::fs::metadata(&pa).map_err(|e| format!("infra:{e}"))?, std::fs::metadata(&pb).map_err(|e| format!("infra:{e}"))?);
-        use std::os::unix::fs::MetadataExt;
-        if ma.blocks() != mb.blocks() {
-            return Err(format!("file-blocks:{what}: allocated blocks differ ({} vs {})", ma.blocks(), mb.blocks()));
+        // NOTE: allocated block counts of the twins are not compared: they
+        // depend on write-back timing and on the file system's preallocation.
+        // What fallocate guarantees is a lower bound, checked on both twins.
+        if let FileOp::Allocate { len, .. } = op {
+            use std::os::unix::fs::MetadataExt;
+            let need = (*len as u64 / 4096) * 4096;
+            let (ma, mb) = (std::fs::metadata(&pa).map_err(|e| format!("infra:{e}"))?, std::fs::metadata(&pb).map_err(|e| format!("infra:{e}"))?);
+            if mb.blocks() * 512 >= need && ma.blocks() * 512 < need {
+                return Err(format!("file-blocks:{what}: after allocating {len} bytes the file has {} bytes of blocks through a10 (fallocate(2) on the twin: {}) [step {k}: {op:?}]", ma.blocks() * 512, mb.blocks() * 512));
+            }
         }
         if let Some(bfd) = fa.as_fd() {
             let pos_a = unsafe { libc::lseek(bfd.as_raw_fd(), 0, libc::SEEK_CUR) };
